@@ -509,6 +509,45 @@ mutual
     | _, _ => true
 end
 
+/-! ## schemas of classes whose writer drops an attribute the parser reads
+
+`fixF` is the repaired field (the attribute is written when it is not the default), `resetF` forgets
+in a value exactly what today's writer drops. -/
+
+mutual
+  def fixF : Field → Field
+    | .attrReadOnly n ty => .attr n ty true
+    | .child h fs m => .child h (fixFs fs) m
+    | .many h fs ne => .many h (fixFs fs) ne
+    | .attr n ty o => .attr n ty o
+    | .text ty => .text ty
+    | .enumChild ns d a names m => .enumChild ns d a names m
+  def fixFs : List Field → List Field
+    | [] => []
+    | f :: fs => fixF f :: fixFs fs
+end
+
+def Val.mapRecord (g : List Val → List Val) : Val → Val
+  | .record vs => .record (g vs)
+  | v => v
+
+mutual
+  def resetF : Field → Val → Val
+    | .attrReadOnly _ ty, _ => ty.parse []
+    | .child _ fs _, v => v.mapRecord (resetFs fs)
+    | .many _ fs _, v =>
+      match v with
+      | .list items => .list (items.map fun it => it.mapRecord (resetFs fs))
+      | v => v
+    | .attr .., v => v
+    | .text _, v => v
+    | .enumChild .., v => v
+  def resetFs : List Field → List Val → List Val
+    | [], vs => vs
+    | _ :: _, [] => []
+    | f :: fs, v :: vs => resetF f v :: resetFs fs vs
+end
+
 /-! ## classes -/
 
 /-- how `parse`/`fromDom` tests the element it is handed -/
@@ -534,6 +573,9 @@ def Schema.WF (S : Schema) : Prop :=
     ∧ mandPlacedFs S.fields = true
 
 instance (S : Schema) : Decidable S.WF := by unfold Schema.WF; infer_instance
+
+/-- the schema with every read-only attribute written (`S.fix = S` for schemas without any) -/
+def Schema.fix (S : Schema) : Schema := { S with fields := fixFs S.fields }
 
 /-- values `decode` can produce and `encode` preserves -/
 def Schema.Canon (S : Schema) (v : List Val) : Prop :=
